@@ -684,9 +684,11 @@ def merged_function(func: FuncInfo, depth: int = 2, full: bool = False) -> ast.A
 
 
 def split_tuple_assigns(root: ast.AST) -> ast.AST:
-	"""rewrites, in place, `a, b, c = E` into `a = E[0]; b = E[1]; c = E[2]` (and `a, b = x, y` into `a = x; b = y`) when no target is starred: the
-	element-wise reading of a destructuring assignment, so that rules about `t.line = src[0]` also see `t.line, t.column = src`"""
+	"""a COPY of root in which `a, b, c = E` reads `a = E[0]; b = E[1]; c = E[2]` (and `a, b = x, y` reads `a = x; b = y`) when no target is starred: the
+	element-wise reading of a destructuring assignment, so that rules about `t.line = src[0]` also see `t.line, t.column = src`. The argument is not
+	touched: the trees of the source index and the cached X()/FI() copies are shared between rules, and their memoised parent maps must stay valid."""
 	import copy
+	root = copy.deepcopy(root)
 
 	class T(ast.NodeTransformer):
 		def visit_Assign(self, node: ast.Assign):
